@@ -69,6 +69,9 @@ pub fn run_scheduled(c: &SchedCase, join_wait: Duration) -> SchedOut {
     let sched = Arc::new(Scheduler::new(c.threads, c.schedule.clone()));
     let visits: Arc<Mutex<Vec<Visit<GM>>>> = Arc::new(Mutex::new(vec![]));
     let v2 = Arc::clone(&visits);
+    // evaluated-state counter: lets the join watchdog tell "slow" (still evaluating) from "hung"
+    let progress = Arc::new(std::sync::atomic::AtomicU64::new(0));
+    let pr2 = Arc::clone(&progress);
     let mut cfg = RunCfg::plain(c.strat, c.threads);
     match c.stop {
         Stop::FinishAny => cfg.finish = Some(Finish::Any),
@@ -77,6 +80,7 @@ pub fn run_scheduled(c: &SchedCase, join_wait: Duration) -> SchedOut {
     }
     let b = builder(gm, &cfg, &PROP_NAMES, None).visitor(move |p: Path<S, u16>| {
         let thread = std::thread::current().name().unwrap_or("").to_string();
+        pr2.fetch_add(1, std::sync::atomic::Ordering::Relaxed);
         v2.lock().unwrap().push(Visit { path: p.into_vec(), thread });
     });
     if c.real_threads {
@@ -84,7 +88,9 @@ pub fn run_scheduled(c: &SchedCase, join_wait: Duration) -> SchedOut {
     } else {
         verif_hooks::set_spawn_ctx(Some(Arc::new(Ctx { block_size: Some(c.block), sched: Some(sched.clone()) })));
     }
-    fn joined<C: Checker<GM> + Send + 'static>(c: C, wait: Duration) -> (Joined, Option<(usize, bool, Result<Vec<&'static str>, String>)>) {
+    /// `join()` on a helper thread. It is reported as hung only if it has not returned and no
+    /// state has been evaluated for `wait` (a slow machine keeps evaluating; a hung join does not).
+    fn joined<C: Checker<GM> + Send + 'static>(c: C, wait: Duration, progress: &std::sync::atomic::AtomicU64) -> (Joined, Option<(usize, bool, Result<Vec<&'static str>, String>)>) {
         let (tx, rx) = mpsc::channel();
         std::thread::Builder::new()
             .name("srv-join".into())
@@ -97,33 +103,45 @@ pub fn run_scheduled(c: &SchedCase, join_wait: Duration) -> SchedOut {
                 let _ = tx.send(r);
             })
             .unwrap();
-        match rx.recv_timeout(wait) {
-            Ok(Ok(res)) => (Joined::Returned, Some(res)),
-            Ok(Err(msg)) => (Joined::Panicked(msg), None),
-            Err(_) => (Joined::Hung, None),
+        let mut last = progress.load(std::sync::atomic::Ordering::Relaxed);
+        let mut quiet_since = std::time::Instant::now();
+        loop {
+            match rx.recv_timeout(Duration::from_millis(250)) {
+                Ok(Ok(res)) => return (Joined::Returned, Some(res)),
+                Ok(Err(msg)) => return (Joined::Panicked(msg), None),
+                Err(_) => {
+                    let now = progress.load(std::sync::atomic::Ordering::Relaxed);
+                    if now != last {
+                        last = now;
+                        quiet_since = std::time::Instant::now();
+                    } else if quiet_since.elapsed() > wait {
+                        return (Joined::Hung, None);
+                    }
+                }
+            }
         }
     }
     let (j, res) = match c.strat {
         Strat::Bfs => {
             let ch = b.spawn_bfs();
             verif_hooks::set_spawn_ctx(None);
-            joined(ch, join_wait)
+            joined(ch, join_wait, &progress)
         }
         Strat::Dfs => {
             let ch = b.spawn_dfs();
             verif_hooks::set_spawn_ctx(None);
-            joined(ch, join_wait)
+            joined(ch, join_wait, &progress)
         }
         Strat::Sim(seed) => {
             let ch = b.spawn_simulation(seed, stateright::UniformChooser);
             verif_hooks::set_spawn_ctx(None);
-            joined(ch, join_wait)
+            joined(ch, join_wait, &progress)
         }
         Strat::OnDemand => {
             let ch = b.spawn_on_demand();
             verif_hooks::set_spawn_ctx(None);
             ch.run_to_completion();
-            joined(ch, join_wait)
+            joined(ch, join_wait, &progress)
         }
     };
     let (unique, is_done, discovered) = res.unwrap_or((0, false, Err("join did not return a checker".into())));
@@ -169,7 +187,7 @@ pub fn sched_strategy(tier: Tier) -> BoxedStrategy<SchedCase> {
 pub const JOIN_WAIT_S: u64 = 6;
 
 pub fn check_scheduled(c: &SchedCase, cov: &mut Cov) -> Result<(), Fail> {
-    let out = run_scheduled(c, Duration::from_secs(if c.real_threads { 120 } else { JOIN_WAIT_S }));
+    let out = run_scheduled(c, Duration::from_secs(if c.real_threads { 60 } else { JOIN_WAIT_S }));
     cov.eval();
     if out.stuck {
         fail!("inconclusive/scheduler-watchdog", "a controlled thread did not reach a scheduling point within the watchdog: {:?}", c.stop);
@@ -185,7 +203,7 @@ pub fn check_scheduled(c: &SchedCase, cov: &mut Cov) -> Result<(), Fail> {
         _ => false,
     };
     match &out.joined {
-        Joined::Hung => fail!(format!("c05/{}/join-did-not-return", c.strat.label()), "join() did not return within the watchdog under {} although every worker thread finished={}", what, true),
+        Joined::Hung => fail!(format!("c05/{}/join-did-not-return", c.strat.label()), "join() did not return under {} although no state had been evaluated for the whole watchdog period (the workers are no longer working)", what),
         Joined::Panicked(msg) => {
             ensure!(panic_reachable, format!("c05/{}/join-panicked-without-cause", c.strat.label()), "join() panicked under {}: {}", what, msg);
             cov.label("panic_surfaced_from_join");
